@@ -1,6 +1,8 @@
 import MorfuseModel.Sched.TimerLemmas
 import MorfuseModel.Sched.Machine
 import MorfuseModel.Sched.MachineHostProps
+import MorfuseModel.Sched.TimerRun
+import MorfuseModel.Sched.MachineTimerTraceHost
 /-!
 # C06 — timed waits: never early, earliest first, exactly once
 
@@ -17,34 +19,6 @@ the order of every marker printed by generated programs under generated frame sc
 under the stated clock discipline.
 -/
 namespace Morfuse.Sched
-
-inductive TOp
-  | add (e due : Nat)        -- `AddElement` (a thread executed `wait`, or was re-timed)
-  | remove (e : Nat)         -- `RemoveElement` (`Stop()` of a timing thread, thread destruction)
-  | setTime (t : Nat)        -- `SetTime` (host frame)
-  | next                     -- one iteration of the `ExecuteRunning` loop
-  deriving Repr, DecidableEq
-
-/-- a timer together with the ledger of everything that ever happened to it -/
-structure TRun where
-  t : Timer := {}
-  added : List (Nat × Nat) := []
-  returned : List ((Nat × Nat) × Nat) := []     -- element and `m_time` at the moment it was returned
-  removed : List (Nat × Nat) := []
-
-def TRun.step (r : TRun) : TOp → TRun
-  | .add e d => { r with t := r.t.add e d, added := (e, d) :: r.added }
-  | .remove e =>
-    match Timer.lastIdxOf r.t.elems e with
-    | some i => { r with t := r.t.remove e, removed := r.t.elems.getD i (0, 0) :: r.removed }
-    | none => r
-  | .setTime time => { r with t := r.t.setTime time }
-  | .next =>
-    match r.t.next with
-    | (some ed, t') => { r with t := t', returned := (ed, r.t.mtime) :: r.returned }
-    | (none, t') => { r with t := t' }
-
-def TRun.run (r : TRun) (ops : List TOp) : TRun := ops.foldl TRun.step r
 
 /-- **Never early.**  Whatever the history, an element is only ever returned (its thread resumed)
     at a time `m_time ≥ due`; with `due = scaledTime + d` that is "not before a frame whose time is
@@ -288,5 +262,95 @@ example : (hostExecute (runOps {} (demoHost ++ [.advance 4]))).out = [] ∧
 /-- `wait 0` resumes inside the same host call: marker 2 is printed by the call, the timer is empty after it -/
 example : (runOps {} [.script [[.mark 1, .wait 0, .mark 2]] [0], .call 0 []]).out = ["m2", "m1"] ∧
     (runOps {} [.script [[.mark 1, .wait 0, .mark 2]] [0], .call 0 []]).timer.elems = [] := by decide +kernel
+
+/-! ## Trace level: the clauses about histories, for the whole machine
+
+The **ghost ledger**: for every reachable state there is a history `ops` of timer operations
+(`reachable_timer_history`, `Sched/MachineTimerTraceHost.lean`; obtained from `ttAll`: every function of the
+machine changes the timer only by `add`, `remove`, `next`; `setTime` once per `ScriptContext::Execute`) whose replay
+from the empty timer is the machine's timer.  `TRun.run {} ops` is then the machine's timer *with its ledger*:
+`added` = every timed wait ever registered (thread, due time), `returned` = every resumption by the timer loop with
+the frame time (`m_time`) of that moment, `removed` = every wait cancelled by `Stop()` / thread destruction.  The
+ledger is existentially quantified instead of stored in the machine state, so the executable machine and the
+driver's output are untouched.  No fuel condition: these hold for exhausted runs too.  Histories without
+`save`/`load` (`Reachable`). -/
+
+/-- the machine's timer with its ledger -/
+def IsLedger (s : State) (ops : List TOp) : Prop :=
+  (TRun.run {} ops).t = s.timer ∧ AddsLate {} ops
+
+theorem C06_trace_ledger_exists {s : State} (h : Reachable s) : ∃ ops, IsLedger s ops := by
+  obtain ⟨ops, hh⟩ := reachable_timer_history h
+  exact ⟨ops, by rw [timerRun_of_run]; exact hh.run, hh.late⟩
+
+/-- **Never early, trace level.**  There is a ledger of the run in which (a) every wait was registered with a
+    due time `scaledTime + d ≥` the frame time at that moment (`AddsLate`), (b) every resumption happened at a
+    frame time `≥` the due time of the element resumed, (c) every resumed element is one that was registered.
+    So a thread that executes `wait d` while the frame time is `t` is not resumed by the timer before a frame
+    whose time is `≥ t + d`. -/
+theorem C06_trace_never_early {s : State} (h : Reachable s) :
+    ∃ ops, IsLedger s ops ∧
+      (∀ x ∈ (TRun.run {} ops).returned, x.1.2 ≤ x.2) ∧
+      (∀ x ∈ (TRun.run {} ops).returned, x.1 ∈ (TRun.run {} ops).added) := by
+  obtain ⟨ops, hl⟩ := C06_trace_ledger_exists h
+  refine ⟨ops, hl, C06_never_early ops, ?_⟩
+  intro x hx
+  have hp := C06_exactly_once ops
+  apply hp.symm.subset
+  simp only [List.mem_append, List.mem_map]
+  exact Or.inl (Or.inl ⟨x, hx, rfl⟩)
+
+/-- **Exactly once, trace level.**  In the ledger of the run every registered wait is, with multiplicity, in
+    exactly one of: resumed, cancelled (`Stop()` / destruction), still pending in the timer.  In particular
+    no wait is resumed twice and no resumption happens without a wait. -/
+theorem C06_trace_exactly_once {s : State} (h : Reachable s) :
+    ∃ ops, IsLedger s ops ∧
+      (TRun.run {} ops).added.Perm
+        ((TRun.run {} ops).returned.map (·.1) ++ (TRun.run {} ops).removed ++ s.timer.elems) := by
+  obtain ⟨ops, hl⟩ := C06_trace_ledger_exists h
+  refine ⟨ops, hl, ?_⟩
+  have hp : (TRun.run {} ops).added.Perm ((TRun.run {} ops).returned.map (·.1) ++ (TRun.run {} ops).removed ++
+      (TRun.run {} ops).t.elems) := C06_exactly_once ops
+  rw [hl.1] at hp
+  exact hp
+
+/-- **By the end of the first due frame, trace level.**  After a `ScriptContext::Execute()` at frame time `T`
+    that did not run out of fuel, every wait ever registered whose due time is `≤ T` has been resumed or was
+    cancelled (its thread stopped or destroyed) — none is still pending. -/
+theorem C06_trace_by_end_of_first_due_frame {s : State} (h : Reachable s) (ho : (hostExecute s).outOfFuel = false) :
+    ∃ ops, IsLedger (hostExecute s) ops ∧
+      ∀ a ∈ (TRun.run {} ops).added, a.2 ≤ s.clock →
+        a ∈ (TRun.run {} ops).returned.map (·.1) ∨ a ∈ (TRun.run {} ops).removed := by
+  have hr : Reachable (hostExecute s) := .step .execute h trivial
+  obtain ⟨ops, hl, hp⟩ := C06_trace_exactly_once hr
+  refine ⟨ops, hl, ?_⟩
+  intro a ha hdue
+  have hm := hp.subset ha
+  simp only [List.mem_append] at hm
+  rcases hm with (hm | hm) | hm
+  · exact Or.inl hm
+  · exact Or.inr hm
+  · have := (C06_machine_none_due_after_execute h ho).2 a hm
+    omega
+
+/-- **Due order, trace level.**  Every resumption recorded in the ledger took, at that moment, the element with
+    the smallest due time among those due and, among equal due times, the one registered first. -/
+theorem C06_trace_due_order {s : State} (h : Reachable s) :
+    ∃ ops, IsLedger s ops ∧
+      ∀ (pre post : List TOp), ops = pre ++ TOp.next :: post → ∀ (e d : Nat) (tm' : Timer),
+        (timerRun {} pre).next = (some (e, d), tm') →
+        ∃ i, (timerRun {} pre).elems[i]? = some (e, d) ∧ d ≤ (timerRun {} pre).mtime ∧
+          (∀ (j e' d' : Nat), (timerRun {} pre).elems[j]? = some (e', d') → d' ≤ (timerRun {} pre).mtime →
+            d ≤ d' ∧ (d' = d → i ≤ j)) := by
+  obtain ⟨ops, hl⟩ := C06_trace_ledger_exists h
+  refine ⟨ops, hl, ?_⟩
+  intro pre post _ e d tm' hn
+  obtain ⟨i, h1, h2, h3, _⟩ := C06_earliest_first_fifo _ tm' e d hn
+  exact ⟨i, h1, h2, h3⟩
+
+/-! ### non-vacuity, trace level: the ledger of the two-thread demo after its frame -/
+example : (TRun.run {} [.add 100 5, .setTime 5, .next, .next]).returned = [((100, 5), 5)] ∧
+    (TRun.run {} [.add 100 5, .setTime 5, .next, .next]).t.elems = (hostExecute (runOps {} (demoHost ++ [.advance 5]))).timer.elems := by
+  decide +kernel
 
 end Morfuse.Sched
